@@ -40,8 +40,24 @@ def add(rep, ctx=None):
     ex[r"^(std::mem::|core::mem::)?zeroed$"] = s_zeroed
     inl = oblig.module_inliner(prog, "lock.rs", r"^$")
 
-    # ---- fcntl_lock
-    f = prog.method("FileLock", "fcntl_lock")
+    # ---- the function of lock.rs that issues the fcntl request (found by what it does, not by its name)
+    cands = [g for n, g in prog.fns.items() if "lock.rs" in (getattr(g, "span", "") or n) or re.search(r"(^|::)lock::|FileLock", n)]
+    cands = [g for g in cands if re.search(r"fcntl::fcntl", g.text) and re.search(r"F_WRLCK|F_SETLK", g.text) and not re.search(r"F_UNLCK", g.text) and len(g.args) == 1]
+    if len(cands) != 1:
+        o = Obligation("lock request: one non-blocking F_SETLK write-lock request on the given file covering [0, infinity)", "E2 mirsym/z3")
+        o.key = "lock:fcntl_lock"
+        if not cands:
+            # nothing in lock.rs issues an fcntl write-lock request: fcntl locks of other processes are not honoured (flock(2) locks
+            # and fcntl locks do not see each other on Linux)
+            o.verdict, o.detail = "violated", "no function of lock.rs issues fcntl(F_SETLK) with F_WRLCK"
+            o.cex = {"reason": o.detail}
+            confirm(o, ctx)
+        else:
+            o.verdict, o.detail = "inconclusive", "%d functions of lock.rs issue fcntl write-lock requests" % len(cands)
+        rep.add(o)
+        return
+    f = cands[0]
+    lock_fn = re.escape(f.name.split("::")[-1])
     eng = oblig.engine(prog, inline=inl, extra=ex)
     fv = Lazy("file", f.args[0][1])
     ps = eng.run(f, args=[fv])
@@ -86,7 +102,7 @@ def add(rep, ctx=None):
         op = called(p, r"OpenOptions::open$")
         wr = [ev for ev in called(p, r"OpenOptions::write$") if isinstance(ev.args[1], Bool) and z3.is_true(z3.simplify(ev.args[1].t))]
         cr = [ev for ev in called(p, r"OpenOptions::(create|create_new|truncate|append)$") if not (isinstance(ev.args[1], Bool) and z3.is_false(z3.simplify(ev.args[1].t)))]
-        lk = called(p, r"FileLock::fcntl_lock$")
+        lk = called(p, r"FileLock::%s$" % lock_fn)
         tp = called(p, r"Path::to_path_buf$")
         if len(op) != 1 or not wr or cr or not tp or tp[0].args[0] is not pv:
             return z3.BoolVal(False)
